@@ -71,14 +71,11 @@ Proof. exact bitname_bracket_full. Qed.
 Print Assumptions C05_bit_name_exact.
 
 Theorem C05_bit_ident_exact : forall (ident : str) (i : N),
-  sep_underscore (bit_ident ident i) =
-  if negb (starts_amp_us (ident ++ [c_us])) || is_empty (last (split_on c_us ident) [])
-  then (Some i, ident) else (None, bit_ident ident i).
+  sep_underscore (bit_ident ident i) = (Some i, ident).
 Proof. exact bitname_underscore_full. Qed.
 Print Assumptions C05_bit_ident_exact.
 
 Theorem C05_bitname_inverse : forall (ident name : str) (i : N),
-  starts_amp_us (ident ++ [c_us]) = false ->
   (match name with c :: _ => c <> c_bsl | [] => True end) ->
   net_bit (bit_ident ident i) (bit_name name i) = Some (Some i, name, ident).
 Proof. exact bitname_inverse. Qed.
@@ -135,7 +132,7 @@ Print Assumptions C05_multibit_subset.
 (* the nets "id_i_"/"name[i]" of a bus, whichever bits are present and in whatever order, are read
    as ONE cable (name, id) = the cable [assemble] describes *)
 Theorem C05_bus_read : forall P ident name (bits : list (N * list P)) nets c,
-  ident_ok ident -> name_ok name -> NoDup (idxs bits) -> bits <> [] ->
+  name_ok name -> NoDup (idxs bits) -> bits <> [] ->
   nets = map (fun '(i, w) => (bit_ident ident i, bit_name name i, w)) bits ->
   read_cable nets = Some (name, ident, c) ->
      c_lower c = min_idx (idxs bits)
@@ -148,7 +145,7 @@ Proof. exact bus_subset_positions. Qed.
 Print Assumptions C05_bus_read.
 
 Theorem C05_bus_read_exists : forall P ident name (bits : list (N * list P)) nets,
-  ident_ok ident -> name_ok name -> NoDup (idxs bits) -> bits <> [] ->
+  name_ok name -> NoDup (idxs bits) -> bits <> [] ->
   nets = map (fun '(i, w) => (bit_ident ident i, bit_name name i, w)) bits ->
   exists c, read_cable nets = Some (name, ident, c).
 Proof. exact bus_subset_read. Qed.
@@ -162,12 +159,11 @@ Proof. exact multibit_example. Qed.
 Example C05_duplicate_lower_bit_joins : ltac:(let t := type of multibit_duplicate_lower_joins in exact t).
 Proof. exact multibit_duplicate_lower_joins. Qed.
 
-(* bits whose identifier starts with "&_" (and does not end in "_") are NOT merged *)
-Theorem C05_refuted_amp_bits : forall ident name i,
-  starts_amp_us (ident ++ [c_us]) = true -> (forall p, ident <> p ++ [c_us]) -> name_ok name ->
-  net_bit (bit_ident ident i) (bit_name name i) = Some (None, name, bit_ident ident i).
-Proof. exact bus_amp_lost. Qed.
-Print Assumptions C05_refuted_amp_bits.
+(* repaired K4 (bundled leon3mp_hierarchical.edf, written by Vivado): bits whose identifier starts with "&_"
+   are merged like any others - [C05_bitname_inverse], [C05_bit_ident_exact] and [C05_bus_read] no longer
+   exclude them; the former witness ("_x" with identifier "&_x") is read as one cable *)
+Example C05_amp_bits_merged : ltac:(let t := type of bus_amp_ident_read in exact t).
+Proof. exact bus_amp_ident_read. Qed.
 
 (* (member p x) *)
 Theorem C05_member_reads_position : forall haswire pins k p,
